@@ -360,7 +360,7 @@ def runCmd (w : World) (tok : Array String) : World × List String :=
   | "PATH" =>
     match w.slot (slotOf (t 1)) with
     | none => (w, ["path null"])
-    | some kf => (w, [s!"path {hexStr (kf.path.getD [])}"])
+    | some kf => (w, [s!"path {hexStr (getPath kf)}"])
   | "TAGS" =>
     match kfArg w (t 1) with
     | none => (w, ["tags 00 00"])
